@@ -15,8 +15,7 @@
     * a non-fitting assignment is rejected with ValueError and leaves the table rectangular
                                                                       `setitem_reject`, `setitem_reject_step`, `err_unchanged`
 -/
-import PygProofs.Lemmas.TableNodup
-import PygProofs.Lemmas.SliceLemmas
+import PygProofs.Lemmas.TableAbsHeap
 
 namespace Pyg.Props.C01
 open Pyg Table
@@ -1010,6 +1009,212 @@ theorem abs_len_iter (t : Table) (n : Nat) (hr : t.Rect n) :
     t.len = .ok (abs t).rows.length ∧ t.iter = (abs t).rows.map fun r => (abs t).cols.zip r := by
   refine ⟨?_, rfl⟩
   rw [len_rect' hr]; simp [abs, rows]
+
+/-! ### the simulation theorem: the history machine refines the list-of-records machine
+
+`specStep` (PygModel/TableSpec.lean) runs every `Op` on a heap of `Recs`, record by record.  `abs_step`: one
+step of the dictable machine, seen through `abs`, is one step of the list-of-records machine — same new
+heap, same outcome (value, alias, `err ValueError/KeyError/IndexError/TypeError`, bad handle) — for EVERY
+operation and all arguments.  The only hypothesis is the history invariant `HeapRect` (`rect_run`); distinct
+column names are not needed.  `abs_run` lifts it to operation lists by induction. -/
+
+theorem absStep_step (s : Heap) (op : Op) (hs : HeapRect s) :
+    absStep (step s op) = specStep (s.map abs) op := by
+  cases op with
+  | new dst data columns kwargs =>
+    simp only [step, specStep]
+    rw [← abs_construct]
+    cases construct data columns kwargs with
+    | none => rfl
+    | some r => exact absStep_bind s dst r
+  | setitem h k v =>
+    simp only [step, specStep, List.getElem?_map]
+    cases ht : s[h]? with
+    | none => rfl
+    | some t =>
+      obtain ⟨n, hn⟩ := hs.get ht
+      simp only [Option.map_some, ← abs_setitem hn]
+      cases t.setitem k v with
+      | error e => rfl
+      | ok t' => simp only [absStep, Except.map, List.map_set]
+  | delitem h k =>
+    simp only [step, specStep, List.getElem?_map]
+    cases ht : s[h]? with
+    | none => rfl
+    | some t =>
+      obtain ⟨n, hn⟩ := hs.get ht
+      simp only [Option.map_some, ← abs_delitem hn]
+      cases t.delitem k with
+      | error e => rfl
+      | ok t' => simp only [absStep, Except.map, List.map_set]
+  | update h kvs =>
+    simp only [step, specStep, List.getElem?_map]
+    cases ht : s[h]? with
+    | none => rfl
+    | some t =>
+      obtain ⟨n, hn⟩ := hs.get ht
+      simp only [Option.map_some, abs_update hn]
+      cases t.update kvs with
+      | mk t' oe => cases oe <;> simp only [absStep, List.map_set]
+  | len h =>
+    simp only [step, specStep, List.getElem?_map]
+    cases ht : s[h]? with
+    | none => rfl
+    | some t =>
+      obtain ⟨n, hn⟩ := hs.get ht
+      simp only [Option.map_some, absStep_query, len_abs hn]
+      rfl
+  | shape h =>
+    simp only [step, specStep, List.getElem?_map]
+    cases ht : s[h]? with
+    | none => rfl
+    | some t =>
+      obtain ⟨n, hn⟩ := hs.get ht
+      simp only [Option.map_some, absStep_query, len_abs hn]
+      simp [Except.map, abs_cols, cols]
+  | row h i =>
+    simp only [step, specStep, List.getElem?_map]
+    cases ht : s[h]? with
+    | none => rfl
+    | some t =>
+      obtain ⟨n, hn⟩ := hs.get ht
+      simp only [Option.map_some, absStep_query, abs_getRow hn]
+  | col h k =>
+    simp only [step, specStep, List.getElem?_map]
+    cases ht : s[h]? with
+    | none => rfl
+    | some t =>
+      obtain ⟨n, hn⟩ := hs.get ht
+      simp only [Option.map_some, absStep_query, abs_getColE hn]
+  | iter h =>
+    simp only [step, specStep, List.getElem?_map]
+    cases ht : s[h]? with
+    | none => rfl
+    | some t => simp only [Option.map_some, absStep_query, abs_iter]
+  | tup h ks =>
+    simp only [step, specStep, List.getElem?_map]
+    cases ht : s[h]? with
+    | none => rfl
+    | some t =>
+      obtain ⟨n, hn⟩ := hs.get ht
+      simp only [Option.map_some, absStep_query, abs_getTuple hn]
+  | apply h f =>
+    simp only [step, specStep, List.getElem?_map]
+    cases ht : s[h]? with
+    | none => rfl
+    | some t =>
+      obtain ⟨n, hn⟩ := hs.get ht
+      simp only [Option.map_some, absStep_query, abs_applyFn hn]
+  | slice dst h a b st =>
+    simp only [step, specStep, List.getElem?_map]
+    cases ht : s[h]? with
+    | none => rfl
+    | some t =>
+      obtain ⟨n, hn⟩ := hs.get ht
+      exact absStep_bind' s dst (abs_getSlice hn a b st)
+  | mask dst h m =>
+    simp only [step, specStep, List.getElem?_map]
+    cases ht : s[h]? with
+    | none => rfl
+    | some t => exact absStep_bind' s dst (abs_getMask m)
+  | take dst h is =>
+    simp only [step, specStep, List.getElem?_map]
+    cases ht : s[h]? with
+    | none => rfl
+    | some t =>
+      obtain ⟨n, hn⟩ := hs.get ht
+      exact absStep_bind' s dst (abs_getTake hn is)
+  | proj dst h ks =>
+    simp only [step, specStep, List.getElem?_map]
+    cases ht : s[h]? with
+    | none => rfl
+    | some t =>
+      obtain ⟨n, hn⟩ := hs.get ht
+      exact absStep_bind' s dst (abs_getProj hn ks)
+  | call dst h consts fns =>
+    simp only [step, specStep, List.getElem?_map]
+    cases ht : s[h]? with
+    | none => rfl
+    | some t =>
+      obtain ⟨n, hn⟩ := hs.get ht
+      exact absStep_bind' s dst (abs_call hn consts fns)
+  | relabel dst h r =>
+    simp only [step, specStep, List.getElem?_map]
+    cases ht : s[h]? with
+    | none => rfl
+    | some t =>
+      obtain ⟨n, hn⟩ := hs.get ht
+      exact absStep_bind' s dst (congrArg Except.ok (abs_relabel_any hn r))
+  | doo dst h f keys =>
+    simp only [step, specStep, List.getElem?_map]
+    cases ht : s[h]? with
+    | none => rfl
+    | some t =>
+      obtain ⟨n, hn⟩ := hs.get ht
+      exact absStep_bind' s dst (abs_doCols hn f keys)
+  | concat dst hs' =>
+    simp only [step, specStep, mapM_getElem?_abs]
+    cases hm : hs'.mapM (fun h => s[h]?) with
+    | none => rfl
+    | some ts =>
+      have hrect : ∀ t ∈ ts, ∃ n, t.Rect n := fun t ht => hs t (mem_of_mapM_getElem? hs' ts hm t ht)
+      match ts, hrect with
+      | [], _ => exact absStep_bind' s dst rfl
+      | [_], _ => rfl
+      | t1 :: t2 :: ts, hrect =>
+        exact absStep_bind' s dst (congrArg Except.ok (abs_concat (t1 :: t2 :: ts) hrect))
+  | addrec dst h r =>
+    simp only [step, specStep, List.getElem?_map]
+    cases ht : s[h]? with
+    | none => rfl
+    | some t =>
+      simp only [Option.map_some, ← abs_construct]
+      cases hc : construct (Data.cols (r.map fun kv => (kv.1, ColVal.one kv.2))) Option.none [] with
+      | none => rfl
+      | some r2 =>
+        cases r2 with
+        | error e => rfl
+        | ok t2 =>
+          have hrect : ∀ x ∈ [t, t2], ∃ n, x.Rect n := by
+            intro x hx
+            simp only [List.mem_cons, List.not_mem_nil, or_false] at hx
+            rcases hx with rfl | rfl
+            · exact hs.get ht
+            · exact construct_rect hc
+          exact absStep_bind' s dst (congrArg Except.ok (abs_concat [t, t2] hrect))
+  | addnone h =>
+    simp only [step, specStep, List.getElem?_map]
+    cases ht : s[h]? <;> rfl
+  | copy dst h =>
+    simp only [step, specStep, List.getElem?_map]
+    cases ht : s[h]? with
+    | none => rfl
+    | some t => exact absStep_bind' s dst rfl
+
+
+/-- **simulation, one step** (DESIGN §14) -/
+theorem abs_step (s : Heap) (op : Op) (hs : HeapRect s) :
+    (step s op).1.map abs = (specStep (s.map abs) op).1 ∧ (step s op).2 = (specStep (s.map abs) op).2 := by
+  have h := absStep_step s op hs
+  exact ⟨congrArg Prod.fst h, congrArg Prod.snd h⟩
+
+/-- **simulation, any history**: the heap after any operation list is, through `abs`, the heap of the
+list-of-records machine after the same list, and the two machines produce the same outcomes line by line -/
+theorem abs_run (ops : List Op) (s : Heap) (hs : HeapRect s) :
+    (run s ops).map abs = specRun (s.map abs) ops ∧ trace s ops = specTrace (s.map abs) ops := by
+  induction ops generalizing s with
+  | nil => exact ⟨rfl, rfl⟩
+  | cons op ops ih =>
+    obtain ⟨h1, h2⟩ := abs_step s op hs
+    obtain ⟨i1, i2⟩ := ih _ (rect_step s op hs)
+    simp only [run, specRun, trace, specTrace]
+    rw [← h1, ← h2]
+    exact ⟨i1, by rw [i2]⟩
+
+/-- from the empty heap there is no hypothesis left -/
+theorem abs_run_empty (ops : List Op) :
+    (run [] ops).map abs = specRun [] ops ∧ trace [] ops = specTrace [] ops :=
+  abs_run ops [] HeapRect.nil
 
 /-! ### non-vacuity: the hypotheses are satisfiable on non-trivial values -/
 
